@@ -24,6 +24,10 @@ import (
 
 const verifRoot = "/verif"
 
+// realStdout is the process's stdout at start-up: verdict lines must reach it even while a monitor has
+// redirected os.Stdout to swallow the library's own chatter.
+var realStdout = os.Stdout
+
 // outRoot is where evidence/ and replays/ are written (VERIF_OUT overrides it
 // for mutation experiments on scratch copies, so real evidence is not clobbered).
 func outRoot() string {
@@ -209,7 +213,7 @@ func (c *Ctx) Violate(findingKey, summary string, replay any) {
 	if f, ok := c.known[findingKey]; ok && findingKey != "" {
 		if _, seen := c.knownHit[findingKey]; !seen {
 			c.knownHit[findingKey] = summary
-			fmt.Printf("KNOWN-FINDING: property=%s %s [%s] observed: %s\n", c.Prop, f.What, findingKey, summary)
+			fmt.Fprintf(realStdout, "KNOWN-FINDING: property=%s %s [%s] observed: %s\n", c.Prop, f.What, findingKey, summary)
 		}
 		return
 	}
@@ -230,8 +234,8 @@ func (c *Ctx) Violate(findingKey, summary string, replay any) {
 	path := filepath.Join(dir, hex.EncodeToString(h[:6])+".json")
 	os.WriteFile(path, b, 0o644)
 	c.viol = append(c.viol, violation{findingKey, summary, path})
-	fmt.Printf("VIOLATION property=%s replay=%s\n", c.Prop, path)
-	fmt.Printf("  detail: %s\n", summary)
+	fmt.Fprintf(realStdout, "VIOLATION property=%s replay=%s\n", c.Prop, path)
+	fmt.Fprintf(realStdout, "  detail: %s\n", summary)
 }
 
 // Finish writes the evidence file and exits with the verdict.
@@ -295,17 +299,17 @@ func (c *Ctx) Finish() {
 			os.Exit(2)
 		}
 	}
-	fmt.Printf("%s %s seed=%d: evaluations=%d distinct_nontrivial=%d violations=%d known=%d wall=%.1fs\n",
+	fmt.Fprintf(realStdout, "%s %s seed=%d: evaluations=%d distinct_nontrivial=%d violations=%d known=%d wall=%.1fs\n",
 		c.Prop, c.Tier, c.Seed, c.evals, len(c.distinct), c.violCount, len(c.knownHit), time.Since(c.start).Seconds())
 	code := 0
 	switch {
 	case c.violCount > 0:
 		code = 1
 	case len(c.inconcl) > 0:
-		fmt.Printf("INCONCLUSIVE property=%s %s\n", c.Prop, strings.Join(c.inconcl, "; "))
+		fmt.Fprintf(realStdout, "INCONCLUSIVE property=%s %s\n", c.Prop, strings.Join(c.inconcl, "; "))
 		code = 2
 	case len(c.distinct) < 2 && c.replayOnly == "":
-		fmt.Printf("INCONCLUSIVE property=%s fewer than 2 distinct non-trivial cases observed\n", c.Prop)
+		fmt.Fprintf(realStdout, "INCONCLUSIVE property=%s fewer than 2 distinct non-trivial cases observed\n", c.Prop)
 		code = 2
 	}
 	cleanupScratch()
